@@ -14,6 +14,7 @@ import (
 	"path/filepath"
 	"runtime"
 	"strings"
+	"sync"
 	"syscall"
 	"unicode/utf8"
 	"verif/harness/disk"
@@ -392,6 +393,47 @@ func Codec(c *Ctx) error {
 	// a decoder that allocates what a hostile length claims takes the process down, not just the call)
 	if err := runDecodeCases(c, gen); err != nil {
 		return err
+	}
+	// 2c. several streams receiving at the same time in one process (they share the package's buffer pool): every
+	// stream must read back exactly its own messages
+	{
+		const streams, msgs = 6, 1500
+		bad := make([]int, streams)
+		var wg sync.WaitGroup
+		for s := 0; s < streams; s++ {
+			wg.Add(1)
+			go func(s int) {
+				defer wg.Done()
+				var hbuf bytes.Buffer
+				for k := 0; k < msgs; k++ {
+					p := &types.Packet{Type: types.PACKET_DATA, ID: uint32(s*100000 + k), Data: bytes.Repeat([]byte{byte(s*37 + k)}, 20000+(k%7)*1000)}
+					b, _ := p.MarshalVT()
+					var h [4]byte
+					binary.BigEndian.PutUint32(h[:], uint32(len(b)))
+					hbuf.Write(h[:])
+					hbuf.Write(b)
+				}
+				rs := util.NewProtoStream(context.Background(), &fragReader{b: hbuf.Bytes(), sizes: []int{1 << 20}}, nil)
+				for k := 0; k < msgs; k++ {
+					p := &types.Packet{}
+					if err := rs.RecvMsg(p); err != nil {
+						bad[s]++
+						return
+					}
+					want := byte(s*37 + k)
+					if p.ID != uint32(s*100000+k) || len(p.Data) != 20000+(k%7)*1000 || p.Data[0] != want || p.Data[len(p.Data)-1] != want || p.Data[len(p.Data)/2] != want {
+						bad[s]++
+					}
+				}
+			}(s)
+		}
+		wg.Wait()
+		total := 0
+		for _, n := range bad {
+			total += n
+		}
+		c.Out.Emit(vt.Ev{"ev": "Concurrent", "case": c.NextCase(), "streams": streams, "messages": msgs, "mismatches": total})
+		c.Stats.Case("concurrentStreams", true)
 	}
 	// 3. framing: message sequences through util.NewProtoStream under fragmentations
 	mk := func(n int, seed byte) *types.Packet {
